@@ -125,7 +125,7 @@ class PyvisEnv:
         return self.LAB_(self.rv, p)
 
     def label(self, x):
-        return If(T.given(self.rv), T.cbv1(self.rv, x), T.hexid(x))
+        return If(self.rv != NONE, T.cbv1(self.rv, x), T.hexid(x))
 
     def isdir(self, l):
         return self.ct.is_a(l, "DirectedEdge")
@@ -232,6 +232,7 @@ def pyvis_functional_pre(c, S, ct, uni, rv, re_):
         And(Mem(V, x), Mem(S.links(x), l)),
         And(l != NONE, ct.is_a(l, "TwoEndedLink"), Len(S.ends(l)) == 2, Or(x == S.v1(l), x == S.v2(l)),
             S.v1(l) != NONE, S.v2(l) != NONE, ct.is_a(S.v1(l), "Vertex"), ct.is_a(S.v2(l), "Vertex"))), pair_from=("_links@",)))
+    c.requires(And(T.opt_cb_ok(rv), T.opt_cb_ok(re_)), "optional-callbacks-are-None-or-truthy")
     c.assume_inv(Schema("rvfunc-does-not-raise", (Ref,), lambda x: Not(T.cb1_raises(rv, x))))
     c.assume_inv(Schema("refunc-does-not-raise", (Ref,), lambda l: Not(T.cb1_raises(re_, l))))
 
@@ -403,15 +404,15 @@ class RenderEnv:
 
     def r(self, x):
         """rendering of one vertex: rfunc(x) (its str()), or repr(x)"""
-        return If(T.given(self.rf), T.cbs1(self.rf, x), T.py_repr(x))
+        return If(self.rf != NONE, T.cbs1(self.rf, x), T.py_repr(x))
 
     def nbs(self, v):
         nb = NB(self.S, v, z3.IntVal(0), z3.IntVal(2), NONE)       # FORWARD neighbours in neighbors() order
-        return If(T.given(self.sk), T.sortedby(self.sk, nb), nb)
+        return If(self.sk != NONE, T.sortedby(self.sk, nb), nb)
 
     def order(self):
         m = self.S.members(self.uni)
-        return If(T.given(self.sk), T.sortedby(self.sk, m), m)
+        return If(self.sk != NONE, T.sortedby(self.sk, m), m)
 
     def J(self, q):
         return self.J_(self.rf, q)
@@ -458,6 +459,7 @@ def _(c):
         And(ct.is_a(x, "Vertex"), Mem(S.links(x), l)),
         And(l != NONE, ct.is_a(l, "TwoEndedLink"), Len(S.ends(l)) == 2, Or(x == S.v1(l), x == S.v2(l)))), pair_from=("_links@",)))
     c.assume_inv(Schema("no-abnormal-scan", (Ref,), lambda x: Implies(ct.is_a(x, "Vertex"), Not(NB_bad(S, x, z3.IntVal(0), z3.IntVal(2), NONE)))))
+    c.requires(And(T.opt_cb_ok(E.rf), T.opt_cb_ok(E.sk)), "optional-callbacks-are-None-or-truthy")
     c.assume_inv(Schema("rfunc-does-not-raise", (Ref,), lambda x: Not(T.cb1_raises(E.rf, x))))
     c.assume_inv(Schema("neighbours-are-renderable", (Ref, Ref), lambda x, w: Implies(
         And(ct.is_a(x, "Vertex"), Mem(E.nbs(x), w)), w != NONE), pair_from=("NBf@", "sortedby")))
